@@ -1,1 +1,26 @@
-fn main() { let _ = vcommon::Ctx::from_args(); }
+mod c25;
+mod c26;
+mod c27;
+mod c31;
+mod c32;
+mod policies;
+
+fn main() {
+    // C25 re-executes itself for the cases that may abort the process (see c25::child_main).
+    if let Ok(spec) = std::env::var("VH_ROBUST_C25_CHILD") {
+        c25::child_main(&spec);
+    }
+    let ctx = vcommon::Ctx::from_args();
+    ctx.watchdog(ctx.pick(1200, 10800));
+    match ctx.prop.as_str() {
+        "C25" => c25::run(&ctx),
+        "C26" => c26::run(&ctx),
+        "C27" => c27::run(&ctx),
+        "C31" => c31::run(&ctx),
+        "C32" => c32::run(&ctx),
+        p => {
+            println!("INCONCLUSIVE vh-robust does not serve {p}");
+            std::process::exit(2);
+        }
+    }
+}
